@@ -23,18 +23,6 @@ def _bit(i):
     return i if i < 100 else 20 + (i - 100)
 
 
-HUGE = 2 ** 53 + 1
-
-
-def _unstretch(kind, v):
-    # decided by the value (after a relabelling the counter may be back among the small ints)
-    if kind == "hugeint":
-        return v - HUGE + 90 if v >= HUGE else v
-    if kind == "npuint8":
-        return 90 if v == 255 else (v - 165 if 256 <= v < 266 else v)
-    return v
-
-
 class Lbl:
     """a label that is hashable only by identity (an ordinary user object)"""
     __slots__ = ("k",)
@@ -71,7 +59,6 @@ class Gamma:
         self.edge_kind = edge_kind
         self.relabelled = False  # after convert_labels_to_integers: identity ints
         self.prev = None  # gamma in force before the last relabelling (decodes 'label')
-        self.uid_kind = edge_kind  # how the id counter reads (survives a relabelling: the counter may stay where it was)
 
     # -- identity ------------------------------------------------------------
     @property
@@ -82,7 +69,6 @@ class Gamma:
         g = Gamma(self.node_kind, self.edge_kind)
         g.relabelled = self.relabelled
         g.prev = self.prev
-        g.uid_kind = self.uid_kind
         return g
 
     def after_relabel(self):
@@ -90,7 +76,6 @@ class Gamma:
         g.relabelled = True
         p = self.clone()
         g.prev = p
-        g.uid_kind = self.uid_kind
         return g
 
     # -- nodes ---------------------------------------------------------------
@@ -195,10 +180,6 @@ class Gamma:
             return np.int64(k)
         if ek == "intfloat":
             return float(k)
-        if ek == "hugeint":  # abstract ids from 90 on lie beyond 2**53: not every such int is a float
-            return int(k) if k < 90 else HUGE + int(k) - 90
-        if ek == "npuint8":  # one-byte ids; abstract 90 is the largest of them (255), 91.. the ints after it
-            return np.uint8(k) if k < 90 else (np.uint8(255) if k == 90 else int(165 + k))
         raise ValueError(ek)
 
     def inv_edge(self, lab):
@@ -217,17 +198,12 @@ class Gamma:
             if isinstance(lab, bool):
                 return UNKNOWN
             if isinstance(lab, (int, np.integer)):
-                k = _unstretch(self.edge_kind, int(lab))
-                return k if 0 <= k < 100 else UNKNOWN
+                return int(lab) if 0 <= int(lab) < 100 else UNKNOWN
             if isinstance(lab, float) and lab.is_integer() and 0 <= lab < 100:
                 return int(lab)
         except (ValueError, TypeError):
             pass
         return UNKNOWN
-
-    def inv_uid(self, v):
-        """the id counter (and integer ids) back in the abstract id universe"""
-        return _unstretch(self.uid_kind, v)
 
     # -- attributes ------------------------------------------------------------
     def attr_value(self, v, table):
